@@ -1,6 +1,6 @@
 (** Pins for C10: the statements written out, so that no theorem is weakened quietly. *)
 From TucModel Require Import Base.Bytes Model.Bounds Model.Scan Model.Opt Model.CutBytes Model.CutStr
-     Model.FastLane Model.Stream Proofs.C04 Proofs.C10 Proofs.C10Stream Properties.C10.
+     Model.FastLane Model.Stream Proofs.C04 Proofs.C10 Proofs.C10Stream Model.Scratch Proofs.C10Scratch Properties.C10.
 
 
 Check C10_general_path :
@@ -54,3 +54,17 @@ Check C10_failure_is_preserved_fixed_memory :
     run_stream_whole so (A ++ [s_eol so]) = Fail pre ->
     run_stream_whole so ((A ++ [s_eol so]) ++ B) = Fail pre.
 Print Assumptions C10_failure_is_preserved_fixed_memory.
+
+Check C10_a_record_ignores_the_scratch_buffers :
+  forall (s s' : scratch) (o : opt) (line : bytes),
+    fst (cut_str_st s o line) = fst (cut_str_st s' o line)
+    /\ fst (cut_fast_st s o line) = fst (cut_fast_st s' o line).
+Print Assumptions C10_a_record_ignores_the_scratch_buffers.
+
+Check C10_general_path_with_reused_buffers :
+  forall (o : opt) (input : bytes), read_and_cut_str_st o input = read_and_cut_str o input.
+Print Assumptions C10_general_path_with_reused_buffers.
+
+Check C10_fast_path_with_reused_buffers :
+  forall (o : opt) (input : bytes), read_and_cut_fast_st o input = read_and_cut_fast o input.
+Print Assumptions C10_fast_path_with_reused_buffers.
